@@ -585,9 +585,19 @@ class WOFFDirectoryEntry(DirectoryEntry):
         if self.length == self.origLength:
             data = rawData
         else:
-            assert self.length < self.origLength
-            data = zlib.decompress(rawData)
-            assert len(data) == self.origLength
+            tag = Tag(getattr(self, "tag", "????"))
+            if self.length > self.origLength:
+                raise TTLibError(
+                    "'%s' table is larger compressed than uncompressed" % tag
+                )
+            try:
+                data = zlib.decompress(rawData)
+            except zlib.error as e:
+                raise TTLibError("can't decompress '%s' table: %s" % (tag, e)) from e
+            if len(data) != self.origLength:
+                raise TTLibError(
+                    "'%s' table has the wrong uncompressed length" % tag
+                )
         return data
 
     def encodeData(self, data):
@@ -618,14 +628,24 @@ class WOFFFlavorData:
             if reader.metaLength:
                 reader.file.seek(reader.metaOffset)
                 rawData = reader.file.read(reader.metaLength)
-                assert len(rawData) == reader.metaLength
-                data = self._decompress(rawData)
-                assert len(data) == reader.metaOrigLength
+                if len(rawData) != reader.metaLength:
+                    raise TTLibError("not enough data for the extended metadata block")
+                try:
+                    data = self._decompress(rawData)
+                except Exception as e:
+                    raise TTLibError(
+                        "can't decompress the extended metadata block: %s" % e
+                    ) from e
+                if len(data) != reader.metaOrigLength:
+                    raise TTLibError(
+                        "extended metadata block has the wrong uncompressed length"
+                    )
                 self.metaData = data
             if reader.privLength:
                 reader.file.seek(reader.privOffset)
                 data = reader.file.read(reader.privLength)
-                assert len(data) == reader.privLength
+                if len(data) != reader.privLength:
+                    raise TTLibError("not enough data for the private data block")
                 self.privData = data
 
     def _decompress(self, rawData):
